@@ -298,6 +298,42 @@ Section SformExact.
   Qed.
 End SformExact.
 
+
+Lemma sform_exact_nifti2 codes (V : Type) (store : V -> Z) (fetch : Z -> V) be cw fw h a code c h' :
+  (forall v, fetch (store v) = v) ->
+  (forall v, 0 <= store v < pow256 fw) ->
+  wf_hdr cw fw h -> - (pow256 cw / 2) <= c < pow256 cw / 2 ->
+  length a = 12%nat ->
+  resolve_code codes (sform_code h) code true = Some c ->
+  set_sform codes V store h (Some a) code = Some h' ->
+  map fetch (srow (read_blocks be cw fw (affine_block be cw fw h') (pixdim_block be fw h') (dims h'))) = a.
+Proof.
+  intros Hid Hst W Hc La Hr E.
+  destruct (sform_exact codes V store fetch be cw fw h a code c h' Hst W Hc La Hr E) as (R & _).
+  rewrite R. rewrite <- (map_id a) at 2. apply map_ext. exact Hid.
+Qed.
+
+Lemma update_header_summary codes aligned unknown (V : Type) (store : V -> Z) vone vmone qnum_of :
+  wf_tables codes aligned unknown = true ->
+  (forall h shape a,
+     exists h', update_header codes aligned unknown V store vone vmone qnum_of h shape (Some a) false = Some h'
+       /\ get_best_affine h' = BestS (map store (firstn 12 a))
+       /\ sform_code h' = aligned /\ qform_code h' = 0 /\ dims h' = shape)
+  /\ (forall h shape a,
+        update_header codes aligned unknown V store vone vmone qnum_of h shape (Some a) true
+        = Some (set_shape h shape))
+  /\ (forall hdr dflt shape a c1 c2,
+        (hdr = None \/ c1 = false) ->
+        exists h2, nifti_save_load codes aligned unknown V store vone vmone qnum_of hdr dflt shape a c1 c2
+                   = Some (h2, BestS (map store (firstn 12 a)))
+          /\ sform_code h2 = aligned /\ qform_code h2 = 0).
+Proof.
+  intros WF. split; [|split].
+  - exact (update_header_writes codes aligned unknown V store vone vmone qnum_of WF).
+  - exact (update_header_shortcut codes aligned unknown V store vone vmone qnum_of).
+  - exact (save_load_writes codes aligned unknown V store vone vmone qnum_of WF).
+Qed.
+
 (* ------------------------------------------------------------------ S-C04a witness *)
 (* integer-valued instance: V = Z, values are the integers themselves, stored as is *)
 Definition rtol_w : Q := 1 # 100000.
@@ -376,4 +412,31 @@ Lemma fallback_centre s0 s1 s2 z0 z1 z2 flip a :
 Proof.
   unfold shape_zoom_affine. cbn. intros E; injection E as <-.
   unfold qnth; cbn [nth]. destruct flip; repeat split; field.
+Qed.
+
+
+Lemma spm_mat_roundtrip flip a : length a = 12%nat ->
+  (exists r, spm_read flip MatMat (fst (spm_write flip a)) (snd (spm_write flip a)) = Some r /\ Qlist_eq r a)
+  /\ (exists r, spm_read flip MatM (fst (spm_write flip a)) [] = Some r /\ Qlist_eq r a).
+Proof. intros H. split; [exact (spm_roundtrip_mat flip a H)|exact (spm_roundtrip_M flip a H)]. Qed.
+
+(* ------------------------------------------------------------------ non-vacuity instance *)
+Open Scope Z_scope.
+Definition hdr_nv : nhdr :=
+  mkN 1 [1065353216;0;0;3266576384; 0;1073741824;0;1123876864; 0;0;1077936128;3264249856]
+      3 3212836864 [1065353216;1073741824;1077936128] [0;1060439283;0] [3266576384;1123876864;3264249856]
+      [2;3;4].
+
+Ltac forall_bits := repeat (apply Forall_cons; [vm_compute; split; [intro; discriminate|reflexivity]|]); apply Forall_nil.
+
+Lemma nonvacuous_hdr :
+  wf_hdr 2 4 hdr_nv
+  /\ read_blocks true 2 4 (affine_block true 2 4 hdr_nv) (pixdim_block true 4 hdr_nv) (dims hdr_nv) = hdr_nv
+  /\ get_best_affine hdr_nv = BestS (srow hdr_nv).
+Proof.
+  split; [|split; [vm_compute; reflexivity|reflexivity]].
+  unfold wf_hdr, bits_ok, hdr_nv; cbn [sform_code qform_code srow quat qoff pixdim pixdim0].
+  split; [lia|]. split; [vm_compute; split; [intro; discriminate|reflexivity]|]. split; [vm_compute; split; [intro; discriminate|reflexivity]|].
+  split; [reflexivity|]. split; [reflexivity|]. split; [reflexivity|]. split; [reflexivity|].
+  split; [forall_bits|]. split; [forall_bits|]. split; [forall_bits|]. forall_bits.
 Qed.
